@@ -48,6 +48,17 @@ def env():
             open(kp, "wb").write(key.private_bytes(serialization.Encoding.PEM, serialization.PrivateFormat.PKCS8, serialization.NoEncryption()))
             der = cert.public_bytes(serialization.Encoding.DER)
             clients.append((cp, kp, "sha256:" + hashlib.sha256(der).hexdigest()))
+        # the 5th client presents its own certificate followed by the (public) certificate of the 1st client as an extra
+        # chain certificate: the certificate that counts is the one whose key signed the handshake - the leaf
+        key = ec.generate_private_key(ec.SECP256R1())
+        name = x509.Name([x509.NameAttribute(NameOID.COMMON_NAME, "pumpclient-chained")])
+        now = datetime.datetime(2026, 1, 1)
+        cert = (x509.CertificateBuilder().subject_name(name).issuer_name(name).public_key(key.public_key()).serial_number(2099)
+                .not_valid_before(now).not_valid_after(now + datetime.timedelta(days=3650)).sign(key, hashes.SHA256()))
+        cp, kp = f"{d}/cl4.pem", f"{d}/cl4.key"
+        open(cp, "wb").write(cert.public_bytes(serialization.Encoding.PEM) + open(clients[0][0], "rb").read())
+        open(kp, "wb").write(key.private_bytes(serialization.Encoding.PEM, serialization.PrivateFormat.PKCS8, serialization.NoEncryption()))
+        clients.append((cp, kp, "sha256:" + hashlib.sha256(cert.public_bytes(serialization.Encoding.DER)).hexdigest()))
         _ENV = (ctx, clients)
     return _ENV
 
@@ -116,7 +127,7 @@ async def _drain():
         await asyncio.sleep(0)
 
 
-async def run_pump(loop: S.VLoop, c):
+async def run_pump(loop: S.VLoop, c, mw_factory=None):
     """case keys: up, mw, handler (spec as in sim.srv), app (list of hex plaintext writes, one TLS record each),
     close_notify, plaintext (hex|None), cutseed, maxcuts, stall (None | [flight, keep_bytes_fraction]),
     cert (None|0|1|2), post (inner events after the reads: ["ua", resp] | ["ha", resp] | ["ma"] | ["md", line] | ["t"] | ["hst"])"""
@@ -164,7 +175,18 @@ async def run_pump(loop: S.VLoop, c):
             return await g
 
     loop.set_exception_handler(lambda lp, cx: log["exc"].append(str(cx.get("exception") or cx.get("message"))[:120]))
-    server = TLSServerProtocol(lambda: GeminiServerProtocol(h, MW() if c.get("mw") else None, Up() if c["up"] else None), ctx)
+    class RealMW:
+        """a real middleware object (from mw_factory), with its calls recorded"""
+        def __init__(self):
+            self.inner = mw_factory()
+
+        async def process_request(self, u, ip, fp=None):
+            log["m"] += 1
+            log["order"].append("m")
+            log["mwargs"].append([u, ip, fp])
+            return await self.inner.process_request(u, ip, fp)
+
+    server = TLSServerProtocol(lambda: GeminiServerProtocol(h, RealMW() if mw_factory else MW() if c.get("mw") else None, Up() if c["up"] else None), ctx)
     tcp = TCP()
     server.connection_made(tcp)
     cctx = ssl.SSLContext(ssl.PROTOCOL_TLS_CLIENT)
